@@ -44,8 +44,10 @@ template <class Scalar> static std::vector<Res> run_t(const Pair &P, const C20Ca
   const Spec &R = *find_spec(P.rich), &S = *find_spec(P.simple); std::vector<Res> out; const long double eps = std::numeric_limits<Scalar>::epsilon();
   { Quiet q; masa_verif_reset();
     if (sizeof(Scalar) > 8) { masa_init<double>("decoy-simple", P.simple); masa_init<double>("decoy-rich", P.rich); } else { masa_init<long double>("decoy-simple", P.simple); masa_init<long double>("decoy-rich", P.rich); }   // see numcase.cpp
-    masa_init<Scalar>("rich", P.rich); masa_init<Scalar>("simple", P.simple);
-    masa_select_mms<Scalar>("rich"); for (auto &kv : c.rich.params) masa_set_param<Scalar>(kv.first, (Scalar)kv.second);
+    // registry pattern of the property ("two handles of one process"): the richer handle is initialised, then the simpler one, then the richer one
+    // AGAIN while the simpler one is selected; masa_init must select what it initialises, so the richer parameters are set without a select
+    masa_init<Scalar>("rich", P.rich); masa_init<Scalar>("simple", P.simple); masa_init<Scalar>("rich", P.rich);
+    for (auto &kv : c.rich.params) masa_set_param<Scalar>(kv.first, (Scalar)kv.second);
     masa_select_mms<Scalar>("simple"); for (auto &kv : c.simple.params) masa_set_param<Scalar>(kv.first, (Scalar)kv.second); }
   PM pr, ps; for (auto &kv : c.rich.params) pr[kv.first] = Q((long double)(Scalar)kv.second); for (auto &kv : c.simple.params) ps[kv.first] = Q((long double)(Scalar)kv.second);
   long double al[4], bl[4]; double ad[4], bd[4]; Q aq[4], bq[4];
